@@ -1,7 +1,9 @@
 # -*- coding: utf-8 -*-
 """Engine of the C18 (access histories) check: worlds of caller-owned argument objects, read
-schedules, fresh evaluation on pristine copies, canonical comparison, shrinking, and the static
-classification of a (minimal) history against the hypotheses H2 / H3 / H4 of Props/C18.v.
+schedules, fresh evaluation on pristine copies, canonical comparison, deep equality of the caller's
+argument objects with their pristine copies after a schedule, shrinking, and the static
+classification of a (minimal) failing history against the REPAIRED defect classes H2 / H3 / H4 of
+Props/C18.v (a regression hint; all four findings are fixed, nothing is exempted).
 
 A WORLD (JSON-able, this is what a replay file stores) is
 
@@ -213,6 +215,137 @@ def mismatches(world, schedule, fresh):
     return bad
 
 
+# ------------------------------------------------------------------------------------
+# the caller's argument objects after a schedule vs their pristine copies
+# ------------------------------------------------------------------------------------
+
+SHIM_FIELDS = ("subvar_alias", "datetime_value")
+
+
+def strip_shim_fields(resp):
+    """response (dict) with the two fields the library may add to the ELEMENTS of a dimension dict
+    removed (the idempotent annotation that stays in place); everything else is compared"""
+    r = copy.deepcopy(resp)
+    res = r.get("result", {}) if isinstance(r, dict) else {}
+    for d in res.get("dimensions", []) or []:
+        for el in (d.get("type", {}) or {}).get("elements", []) or []:
+            if isinstance(el, dict):
+                for f in SHIM_FIELDS:
+                    el.pop(f, None)
+    return r
+
+
+def same(a, b):
+    """deep, type-aware equality (1 / True / "1" / 1.0 apart, list / tuple apart, NaN == NaN)"""
+    return json.dumps(canon(a), sort_keys=True) == json.dumps(canon(b), sort_keys=True)
+
+
+def first_diff(a, b, path=""):
+    """path of the first difference between two JSON-like objects (for the report)"""
+    if type(a) is not type(b):
+        return path or "."
+    if isinstance(a, dict):
+        ka, kb = list(a.keys()), list(b.keys())
+        for k in ka:
+            if not any(type(k) is type(k2) and k == k2 for k2 in kb):
+                return "%s/%r (key removed)" % (path, k)
+        for k in kb:
+            if not any(type(k) is type(k2) and k == k2 for k2 in ka):
+                return "%s/%r (key added)" % (path, k)
+        for k in ka:
+            d = first_diff(a[k], b[k], "%s/%r" % (path, k))
+            if d:
+                return d
+        return None
+    if isinstance(a, (list, tuple)):
+        if len(a) != len(b):
+            return "%s (length %d -> %d)" % (path, len(a), len(b))
+        for i, (x, y) in enumerate(zip(a, b)):
+            d = first_diff(x, y, "%s[%d]" % (path, i))
+            if d:
+                return d
+        return None
+    return None if same(a, b) else (path or ".")
+
+
+def args_changed(world, R, T):
+    """[(which, index, where)] for every caller-owned argument object that is no longer deep-equal
+    to its pristine copy: transforms dicts exactly; responses apart from the subvar_alias /
+    datetime_value annotation of dimension elements; JSON text is immutable."""
+    out = []
+    for j, (t0, t) in enumerate(zip(world["transforms"], T)):
+        if not same(t0, t):
+            out.append(("transforms", j, first_diff(t0, t)))
+    for i, (r0, form, r) in enumerate(zip(world["responses"], world["forms"], R)):
+        if form == "dict":
+            got = r
+        elif form == "envelope":
+            if not isinstance(r, dict) or list(r.keys()) != ["value"]:
+                out.append(("response", i, "envelope"))
+                continue
+            got = r["value"]
+        else:
+            if r != (json.dumps(r0) if form == "text" else json.dumps({"value": r0})):
+                out.append(("response", i, "text"))
+            continue
+        g2 = strip_shim_fields(got)
+        if not same(r0, g2):
+            out.append(("response", i, first_diff(r0, g2)))
+    return out
+
+
+def evaluate(world, schedule, fresh):
+    """(reads that differ from the fresh evaluation, argument objects that changed)"""
+    got, R, T, _o = run_shared(world, schedule)
+    bad = []
+    for i, (op, g) in enumerate(zip(schedule, got)):
+        if op[0] != "read":
+            continue
+        exp = fresh.read(op[1], op[2], op[3], op[4])
+        if g != exp:
+            bad.append((i, g, exp))
+    return bad, args_changed(world, R, T)
+
+
+def mutates(world, schedule):
+    _got, R, T, _o = run_shared(world, schedule)
+    return args_changed(world, R, T)
+
+
+def shrink_mutation(world, schedule, max_runs=300):
+    """minimal schedule after which a caller-owned argument object still differs from its pristine
+    copy: delta debugging over the reads, then the objects no remaining read needs are dropped
+    (when construction alone edits nothing)"""
+    runs = [0]
+
+    def fails(s):
+        runs[0] += 1
+        return bool(mutates(world, s))
+
+    cur = list(schedule)
+    chunk = max(1, sum(1 for op in cur if op[0] == "read") // 2)
+    while chunk >= 1 and runs[0] < max_runs:
+        i = 0
+        while runs[0] < max_runs:
+            removable = [j for j in range(len(cur)) if cur[j][0] == "read"]
+            if i >= len(removable):
+                break
+            drop = set(removable[i:i + chunk])
+            cand = [op for j, op in enumerate(cur) if j not in drop]
+            if fails(cand):
+                cur = cand
+            else:
+                i += chunk
+        if chunk == 1:
+            break
+        chunk //= 2
+    used = {op[1] for op in cur if op[0] == "read"}
+    cand = [op for op in cur if op[0] == "read" or op[1] in used]
+    if cand != cur and fails(cand):
+        cur = cand
+    return cur
+
+
 def probe_targets(world, k):
     """[(target, classname)] of object k on pristine copies (to choose readable targets)."""
     R, T = build_args(world)
@@ -274,7 +407,8 @@ def shrink(world, schedule, fresh, max_runs=400):
 
 
 # ------------------------------------------------------------------------------------
-# static classification of a history against H2 / H3 / H4
+# static classification of a FAILING history against the repaired defect classes H2 / H3 / H4
+# (regression hint in the report; no class is exempted any more)
 # ------------------------------------------------------------------------------------
 
 
@@ -350,7 +484,8 @@ def obj_uses(spec):
 
 
 def classify(world, schedule):
-    """Which hypothesis of Props/C18.v does the history violate?  Static, from the arguments."""
+    """Which REPAIRED defect class (former hypothesis of Props/C18.v) does the failing history fall
+    in?  Static, from the arguments; "other" = none of them."""
     used = sorted({op[1] for op in schedule if op[0] == "new"})
     specs = [(k, world["objects"][k]) for k in used]
     causes = []
